@@ -6,10 +6,10 @@ CONSTANTS
     MaxCalls = 1
     Transport = "unix"
     StaleFix = TRUE
-    Hooks = FALSE
+    Hooks = TRUE
     Mode = "edges"
     Depth = 0
     Eager = TRUE
-    SSHook = FALSE
+    SSHook = TRUE
 VIEW View
 CHECK_DEADLOCK FALSE
